@@ -42,6 +42,7 @@ structure St where
   netTy : Array CType := #[]
   netName : Array String := #[]
   cycle : Nat := 0
+  ctEval : Option Nat := none   -- const mode: the expression whose construction-time evaluation is in progress
   runIsAbs : Bool := true
   absSeqNv : Array (Array BV4) := #[]
   absSeqXv : Array (Array BV4) := #[]
